@@ -76,12 +76,18 @@ NameCases == UNION {
           value |-> IF n \in NamesOf(e) THEN ValueByName(e, n) ELSE 0, vname |-> n]
             : n \in Lookalikes \cup NamesOf(Neighbour(i, 1)) \cup NamesOf(Neighbour(i, 2))}
    : i \in Idx(Ref.enums)}
+\* ... and a tag that carries no enumeration at all is no scope for any name: neither the names of some enumeration nor the names
+\* several enumerations share (PGP, X_509, CTR denote different numbers in different enumerations)
+EnumTagNums == {Ref.enums[i][1] : i \in Idx(Ref.enums)} \cup {Ref.masks[i][1] : i \in Idx(Ref.masks)}
+PlainTags == {t \in TagNums(Ref) : t \notin EnumTagNums /\ (t % 16 = 11 \/ t = 4325387)}         \* a sample, and Attribute Value (0x42000B)
+NoScopeCases == {[kind |-> "name-out-of-scope", tag |-> t, name |-> NameOfTag(t), value |-> 0, vname |-> n]
+                   : t \in PlainTags, n \in {"PGP", "X_509", "CTR"} \cup NamesOf(Ref.enums[1]) \cup NamesOf(Ref.enums[2])}
 \* enumerations an application registers for its own tags with its own Go types - whatever these types are called (the first two are
 \* called like standard tags, the third is not): the scope of a type is the tag it was registered with. Values 1 and 2 are registered
 \* as "Unlocked" and "Locked", 9 is not.
 VendorTypeCases == {[kind |-> "vendortype", tag |-> 5505040 + i, name |-> <<"State", "ObjectType", "VendorKind">>[i], value |-> v,
                      vname |-> IF v = 1 THEN "Unlocked" ELSE IF v = 2 THEN "Locked" ELSE ""] : i \in 1..3, v \in {1, 2, 9}}
-Cases == TagCases \cup EnumCases \cup MaskCases \cup MaskPairCases \cup NameCases \cup VendorTypeCases
+Cases == TagCases \cup EnumCases \cup MaskCases \cup MaskPairCases \cup NameCases \cup NoScopeCases \cup VendorTypeCases
 
 Init == c \in Cases
 Next == UNCHANGED c
